@@ -303,7 +303,7 @@ func TestRandom(t *testing.T) {
 	vt.Run(t, rec, vt.Prop[diffCase]{Kind: "diff", Gen: genDiff, Check: checkDiff, Meta: metaDiff}, vt.N(60000, 400000))
 }
 
-var replayers = vt.Replayer{"diff": vt.Decode(checkDiff)}
+var replayers = vt.Replayer{"diff": vt.Decode(checkDiff), "cmplog": vt.Decode(checkCmpLog)}
 
 func TestReplay(t *testing.T) { vt.Replay(t, rec, replayers) }
 
